@@ -67,15 +67,28 @@ def exec_clean_case(case: dict) -> dict:
             else:
                 paths = sorted(rng.sample(labels, min(len(labels), rng.choice([1, 2])))) or ["."]
             argsets.append({"paths": paths, "all": rng.random() < 0.7, "unsafe": rng.random() < 0.25,
-                            "commit": rng.random() < 0.85})
+                            "commit": rng.random() < 0.85, "from_subdir": rng.random() < 0.3})
         k = 0
         for a in argsets:
             w = world.copy()
             old = os.getcwd()
+            old_env = {k_: os.environ.get(k_) for k_ in ("STEPUP_ROOT", "HERE")}
             os.chdir(w.root)
+            if a.get("from_subdir"):
+                # the tool is run from a directory below the root (STEPUP_ROOT tells where the root is);
+                # that directory holds the user's own files with the same relative names as the outputs
+                sub = w.root / "elsewhere"
+                sub.mkdir(exist_ok=True)
+                for p_ in labels + [q for q in case["project"]["sources"] if not q.endswith(".py")]:
+                    dst = sub / p_
+                    dst.parent.mkdir(parents=True, exist_ok=True)
+                    dst.write_text("a file of the user, never declared\n")
+                os.environ["STEPUP_ROOT"] = str(w.root)
+                os.environ.pop("HERE", None)
+                os.chdir(sub)
             try:
                 before = w.snapshot()
-                con = connect(".stepup/graph.db", read_only=True)
+                con = connect(str(w.root / ".stepup" / "graph.db"), read_only=True)
                 try:
                     st_before = project_db(con)
                     ns = argparse.Namespace(paths=[Path(p) for p in a["paths"]], all=a["all"], commit=a["commit"], safe=not a["unsafe"])
@@ -95,6 +108,11 @@ def exec_clean_case(case: dict) -> dict:
                 after = w.snapshot()
             finally:
                 os.chdir(old)
+                for k_, v_ in old_env.items():
+                    if v_ is None:
+                        os.environ.pop(k_, None)
+                    else:
+                        os.environ[k_] = v_
                 w.destroy()
             k += 1
             rels.append({"tid": case["tid"], "k": k, "rel": "clean_tool",
